@@ -9,6 +9,7 @@ import NxModel.Nex.C14Wire
 import NxProofs.C14Str
 import NxProofs.Sys
 import NxProofs.Duplex
+import NxProofs.HandshakeAcks
 /-!
 # C14 — values survive a client → server → client round trip through any generated method
 
@@ -336,6 +337,50 @@ theorem rpc_roundtrip_between_endpoints (penv : L1.Env) (hl : L1.EnvLaws penv)
     rw [hencr] at e1
     cases e1
     exact ⟨msg, e2, r⟩
+
+/-- **a remote call from the very beginning of a connection**: a client object fresh from `Conn.new`, `handshake()` without
+    credentials, ANY sequence of SYN / CONNECT packets handed to it (`clientRun`), the connection a server without a ticket key
+    registered for a CONNECT from this peer — and then ANY history of the duplex system. Nothing is assumed about the state after the
+    handshake: `L1.client_half_any_packets`, `L1.server_half_established` and `L1.server_ciphers` give `Established` in both
+    directions, `L1.duplex_established` the coupling, and the request and the response of a generated method arrive as in
+    `rpc_roundtrip_between_endpoints`. -/
+theorem rpc_roundtrip_from_handshake (penv : L1.Env) (hl : L1.EnvLaws penv)
+    (version : Option Nat) (u chk sid : Nat) (la : L1.Addr) (lp lt : Nat) (ra : L1.Addr) (rp rt : Nat) (t0 t3 : L1.Time)
+    (xs : List L1.HsPkt) (c' : L1.Conn)
+    (hrun : L1.clientRun penv ((L1.Conn.new penv version u chk sid la lp lt ra rp rt).handshake penv t0 none).c xs = some c')
+    (now : L1.Time) (rnd : L1.Rnd) (s : L1.ServerStream) (con : Prudp.Packet) (addr : L1.Addr) (hkey : s.key = none)
+    (hnew : L1.clientLookup (addr, con.sourcePort, con.sourceType) s.clients = none) (cs : L1.Conn)
+    (hreg : L1.clientLookup (addr, con.sourcePort, con.sourceType) (s.processConnect penv now rnd true con addr).s.clients = some cs)
+    (sub : Nat) (hsub : sub ≤ penv.s.maxSubstreamId)
+    (hconn : (c'.resumeHandshake t3).c.state = L1.STATE_CONNECTED)
+    (hA : 1 ≤ (c'.resumeHandshake t3).c.fragmentSize) (hB : 1 ≤ cs.fragmentSize)
+    (ops : List L1.DOp)
+    (hok : L1.Duplex.runOk penv sub { ab := L1.Sys.fresh (c'.resumeHandshake t3).c cs, ba := L1.Sys.fresh cs (c'.resumeHandshake t3).c } ops = true)
+    {env : Env} {cfg : Cfg} {fuel : Nat} {p : ProtoDef} {m : MethodDef} {args res : List Val} {pi mi : Nat} {body rbody : Bytes}
+    (h : clientRequest env cfg fuel p m args = .ok (pi, mi, body)) (callId : Nat)
+    (hwf : (Rmc.Spec.request pi callId mi body).WF) (wire : Bytes)
+    (henc : Rmc.encode (Rmc.ofSpec (.request pi callId mi body)) = .ok wire)
+    (hr : serverResponse env cfg fuel m res = .ok rbody)
+    (hwfr : (Rmc.Spec.success pi callId m.id rbody).WF) (rwire : Bytes)
+    (hencr : Rmc.encode (Rmc.ofSpec (.success pi callId m.id rbody)) = .ok rwire)
+    (k k' : Nat)
+    (hsent : (L1.Duplex.run penv sub { ab := L1.Sys.fresh (c'.resumeHandshake t3).c cs, ba := L1.Sys.fresh cs (c'.resumeHandshake t3).c } ops).ab.accepted[k]? = some wire)
+    (hsentr : (L1.Duplex.run penv sub { ab := L1.Sys.fresh (c'.resumeHandshake t3).c cs, ba := L1.Sys.fresh cs (c'.resumeHandshake t3).c } ops).ba.accepted[k']? = some rwire)
+    (got : Bytes) (hgot : ((L1.Duplex.run penv sub { ab := L1.Sys.fresh (c'.resumeHandshake t3).c cs, ba := L1.Sys.fresh cs (c'.resumeHandshake t3).c } ops).ab.b.queues[sub]?.getD [])[k]? = some got)
+    (gotr : Bytes) (hgotr : ((L1.Duplex.run penv sub { ab := L1.Sys.fresh (c'.resumeHandshake t3).c cs, ba := L1.Sys.fresh cs (c'.resumeHandshake t3).c } ops).ab.a.queues[sub]?.getD [])[k']? = some gotr) :
+    (∃ msg, Rmc.decode got = .ok msg ∧ msg.mode = 0 ∧ msg.protocol = p.id ∧ msg.method = some m.id ∧ msg.callId = callId
+      ∧ serverRequest env cfg fuel m msg.body = .ok (visArgs env cfg fuel m.request args)) ∧
+    (∃ msg, Rmc.decode gotr = .ok msg ∧ msg.mode = 1 ∧ msg.callId = callId ∧ msg.error = -1
+      ∧ clientResponse env cfg fuel m msg.body = .ok (visArgs env cfg fuel m.response res)) := by
+  obtain ⟨hcr, hck, hcon⟩ := L1.client_half_any_packets penv version u chk sid la lp lt ra rp rt t0 t3 none xs c' hrun sub hsub hconn
+  obtain ⟨hson, hsk⟩ := L1.server_ciphers penv now rnd true s con addr hnew cs hreg
+  have hest := L1.established_of_halves sub _ cs hcr (L1.server_half_established penv now rnd true s con addr hnew cs hreg sub hsub)
+    (by rw [hck, hsk hkey]
+        simp only [L1.clientKeys, List.getElem?_map])
+    (by rw [hson, hcon])
+  have h0 := L1.duplex_established penv sub _ _ _ cs hest.1 hest.2
+  exact rpc_roundtrip_between_endpoints penv hl sub _ _ _ _ hA hB _ _ ops _ _ _ h0 hok h callId hwf wire henc hr hwfr rwire hencr
+    k k' hsent hsentr got hgot gotr hgotr
 
 /-- **response leg over a misbehaving network** (the other direction of the connection is another channel) -/
 theorem rpc_response_over_faulty_network (c : Chan.Cipher) (hc : Chan.CipherOk c) (size : Nat) (hsz : 1 ≤ size)
